@@ -47,6 +47,21 @@ func (k Keeper) Logger(ctx sdk.Context) log.Logger {
 
 // GetAssetPriceFromDenomInToDenomOut returns the price of an asset from a denom to another denom
 func (k Keeper) GetAssetPriceFromDenomInToDenomOut(ctx sdk.Context, denomIn, denomOut string) (sdkmath.LegacyDec, error) {
+	// With an oracle price on both sides the price of one base unit of denomIn in base units of denomOut is
+	// (priceIn / 10^decimalsIn) / (priceOut / 10^decimalsOut). Take it in ONE division: the USD value of a single base
+	// unit, price / 10^decimals, keeps only 18 - decimals digits of the price in an 18 digits Dec (4 digits of a
+	// 2000 USD asset with 18 decimals), and the quotient of two such values inherits that error.
+	pIn, decIn, errIn := k.perpetual.GetAssetPriceAndDecimals(ctx, denomIn)
+	pOut, decOut, errOut := k.perpetual.GetAssetPriceAndDecimals(ctx, denomOut)
+	if errIn == nil && errOut == nil && pIn.IsPositive() && pOut.IsPositive() && decIn <= 18 && decOut <= 18 {
+		if decOut >= decIn {
+			pIn = pIn.MulInt(sdkmath.NewIntWithDecimal(1, int(decOut-decIn)))
+		} else {
+			pOut = pOut.MulInt(sdkmath.NewIntWithDecimal(1, int(decIn-decOut)))
+		}
+		return pIn.Quo(pOut), nil
+	}
+
 	priceIn := k.amm.CalculateUSDValue(ctx, denomIn, sdkmath.NewInt(1))
 	priceOut := k.amm.CalculateUSDValue(ctx, denomOut, sdkmath.NewInt(1))
 
